@@ -233,8 +233,28 @@ def build_layout(spec):
             n = len(ch["seq"])
             for i, nm in enumerate(ch["seq"]):
                 role = "53" if n == 1 else ("5" if i == 0 else ("3" if i == n - 1 else "NI"))
-                expect.append({"name": ("R" if ch.get("rna") else "D") + nm, "role": role, "chain": k})
+                expect.append({"name": ("R" if ch.get("rna") else "D") + nm, "role": role, "chain": k, "strand": f"{k}.0"})
             num += n
+        elif kind == "multi":
+            # several polymers under ONE chain id, no TER between them: the only end markers are the atoms
+            # set_termini looks for (OXT on a peptide's last residue, H3T on a strand's last nucleotide)
+            for s, pt in enumerate(ch["parts"]):
+                org = (0.0, y0 + 11.0 * s, 5.0 * s)
+                if "pep" in pt:
+                    seq = pt["pep"]
+                    part = B.build_peptide(seq, chain=cid, start=num, origin=org, relax=False)
+                    for i, nm in enumerate(seq):
+                        role = "NC" if len(seq) == 1 else ("N" if i == 0 else ("C" if i == len(seq) - 1 else "I"))
+                        expect.append({"name": nm, "role": role, "chain": k})
+                else:
+                    seq, rna = pt["na"], pt.get("rna", False)
+                    part = B.build_strand(seq, chain=cid, start=num, rna=rna, hydrogens=True, origin=org, resnames=pt.get("resnames", "pdb"))
+                    n = len(seq)
+                    for i, nm in enumerate(seq):
+                        role = "53" if n == 1 else ("5" if i == 0 else ("3" if i == n - 1 else "NI"))
+                        expect.append({"name": ("R" if rna else "D") + nm, "role": role, "chain": k, "strand": f"{k}.{s}"})
+                atoms += part
+                num += len(seq) + ch.get("gap", 0)
         for ex in ch.get("extras", []):
             if ex == "wat":
                 w = B.waters(1, around=atoms, chain=cid, start=num + 5)
@@ -292,6 +312,15 @@ def gen_layout(rng):
                 ch["icode"] = "A"
         elif r < 0.7:
             ch = {"type": "cyc", "chain": cid, "seq": rng.choice([["ALA", "GLY", "SER", "ALA", "GLY"], ["GLY", "ALA", "GLY", "LYS", "ALA"], ["ALA", "ALA", "GLY", "ALA", "SER", "GLY"]]), "start": start}
+        elif r < 0.82:
+            parts = []
+            for _ in range(rng.choice([2, 2, 3])):
+                if rng.random() < 0.3:
+                    parts.append({"pep": rand_seq(rng, rng.choice([1, 2, 3]))})
+                else:
+                    rna = rng.random() < 0.5
+                    parts.append({"na": [rng.choice("ACG" + ("U" if rna else "T")) for _ in range(rng.choice([1, 2, 3]))], "rna": rna, "resnames": rng.choice(["pdb", "pdb", "template"])})
+            ch = {"type": "multi", "chain": cid, "parts": parts, "start": start, "gap": rng.choice([0, 0, 2])}
         else:
             rna = rng.random() < 0.5
             ch = {"type": "na", "chain": cid, "seq": [rng.choice("ACG" + ("U" if rna else "T")) for _ in range(rng.choice([1, 2, 3, 4]))], "rna": rna, "start": start}
@@ -328,6 +357,19 @@ def termini_case(lay):
     from harness import builder as B
 
     text, _ = pdb_text(lay["spec"], ter=lay["ter"])
+    # the hidden-end markers (OXT; H3T or a residue name ending in 3) are read from the INPUT records, not from the
+    # residue objects: an atom dropped or renamed while the residue is built shows up as a disagreement
+    in_names, by_serial, key = [], {}, None
+    for ln in text.splitlines():
+        if ln.startswith(("ATOM", "HETATM")):
+            k_ = (ln[17:20], ln[21], ln[22:27])
+            if k_ != key:
+                in_names.append((ln[17:20].strip(), set()))
+                key = k_
+            in_names[-1][1].add(ln[12:16].strip())
+            by_serial[int(ln[6:11])] = len(in_names) - 1
+        elif ln.startswith("TER"):
+            key = None
     sb = B.setup_biomolecule(text, termini=False)
     bio = sb["biomolecule"]
     rid = {id(r): i for i, r in enumerate(bio.residues)}
@@ -344,8 +386,9 @@ def termini_case(lay):
                 pos_n[i] = r.map["N"].coords
             if hasc:
                 pos_c[i] = r.map["C"].coords
-            h3t = r.has_atom("H3T") or r.name.endswith("3")
-            ds.append(f"mkrd {i} {kind_of(r)} {b(r.name in ('NH2', 'NME'))} {b(r.has_atom('OXT'))} {b(h3t)} {b(hasn)} {b(hasc)} {b(nh2)}")
+            iname, inames = in_names[by_serial[r.atoms[0].serial]]
+            h3t = "H3T" in inames or iname.endswith("3")
+            ds.append(f"mkrd {i} {kind_of(r)} {b(r.name in ('NH2', 'NME'))} {b('OXT' in inames)} {b(h3t)} {b(hasn)} {b(hasc)} {b(nh2)}")
         chains.append(f"({core.coq_string(ch.chain_id)}, {core.coq_list(ds)})")
     close = []
     for i, pn in pos_n.items():
@@ -378,6 +421,10 @@ def corr_termini(ctx, n):
         {"spec": [{"type": "pep", "chain": "A", "segments": [["ALA"]], "extras": []}, {"type": "pep", "chain": "B", "segments": [["PRO", "GLY"]], "extras": ["wat"]}], "ter": True, "neutraln": True, "neutralc": True},
         {"spec": [{"type": "cyc", "chain": "A", "seq": ["ALA", "GLY", "SER", "ALA", "GLY"], "extras": []}, {"type": "na", "chain": " ", "seq": ["A", "T"], "extras": []}], "ter": True, "neutraln": False, "neutralc": False},
         {"spec": [{"type": "pep", "chain": "A", "segments": [["ALA", "GLY", "ALA"]], "extras": ["NME"]}, {"type": "pep", "chain": " ", "segments": [["GLY", "ALA"]], "extras": ["lig"]}], "ter": False, "neutraln": False, "neutralc": False},
+    ]
+    lays[:0] = [
+        {"spec": [{"type": "multi", "chain": "B", "parts": [{"na": ["A", "C", "G"]}, {"na": ["T", "A"]}], "extras": []}], "ter": True, "neutraln": False, "neutralc": False},
+        {"spec": [{"type": "multi", "chain": " ", "parts": [{"na": ["G", "U"], "rna": True}, {"pep": ["ALA", "GLY", "SER"]}, {"na": ["C", "A", "U"], "rna": True}], "extras": ["wat"]}], "ter": False, "neutraln": False, "neutralc": False},
     ]
     # the refutation witness of C02_termini_cyclic_after_split_refuted, replayed on the real code every run
     lays.insert(0, {"spec": [{"type": "cyc", "chain": "A", "seq": ["ALA", "GLY", "SER", "ALA", "GLY"], "oxt": True, "tail": ["GLY", "ALA"], "extras": []}], "ter": True, "neutraln": False, "neutralc": False})
@@ -533,7 +580,7 @@ def judge(ctx, case, out, stats):
             continue
         ctx.evaluated(key, True)
         if e["role"] in ("5", "3", "NI"):
-            strand.setdefault(e["chain"], []).append((e, r))
+            strand.setdefault(e.get("strand", e["chain"]), []).append((e, r))
         cond = None
         if r["ffname"] not in ok_names:
             cond = "wrong-state-name"
@@ -649,6 +696,10 @@ def other_cases(rng, thorough):
         cases.append({"spec": [{"type": "cyc", "chain": "A", "seq": ["ALA", "GLY", "SER", "ALA", "GLY"], "extras": []},
                                {"type": "pep", "chain": "B", "segments": [["GLY", "ALA"]], "extras": []}], "ff": ff, "opts": []})
         cases.append({"spec": [{"type": "pep", "chain": " ", "segments": [["THR", "ALA", "VAL"]], "start": 998, "extras": ["wat"]}], "ter": False, "ff": ff, "opts": []})
+        # several polymers under one chain id (hydrogenated strands: H3T marks the hidden 3' ends): -1 per phosphate PER STRAND
+        cases.append({"spec": [{"type": "multi", "chain": "B", "parts": [{"na": ["A", "C", "G"]}, {"na": ["T", "A"]}], "extras": []}], "ff": ff, "opts": []})
+        cases.append({"spec": [{"type": "multi", "chain": "B", "parts": [{"na": ["G", "U"], "rna": True}, {"na": ["A", "C", "U"], "rna": True}, {"na": ["C", "G"], "rna": True}], "extras": []}], "ff": ff, "opts": []})
+        cases.append({"spec": [{"type": "multi", "chain": " ", "parts": [{"pep": ["ALA", "GLY", "SER"]}, {"na": ["G", "C", "A"], "rna": True}, {"pep": ["LYS", "ALA"]}], "extras": []}], "ter": False, "ff": ff, "opts": []})
         if ff == "AMBER":  # the cyclic-after-split witness must not produce a PQR silently
             cases.append({"spec": [{"type": "cyc", "chain": "A", "seq": ["ALA", "GLY", "SER", "ALA", "GLY"], "oxt": True, "tail": ["GLY", "ALA"], "extras": []}], "ff": ff, "opts": []})
         # no OXT in the input (pdb2pqr rebuilds it): the chain end must still become a C-terminus
